@@ -361,6 +361,19 @@ fn check_rebuilds(w: &Window<L>, m: &VecDeque<L>, next_label: L, rng: &mut Rng, 
 			None => r.violate(&sig("serialize", "no-index"), "serialized window has no integer `index`", || case("serialize")),
 		}
 	}
+	// serde through a positional format (structs as sequences of field values, read back in declaration order) and through
+	// the bit-exact name-based tree
+	for (route, positional) in [("serde-positional", true), ("serde-bit-exact", false)] {
+		let sv = if positional { crate::sv::to_sv_positional(w) } else { crate::sv::to_sv(w) };
+		match sv {
+			Ok(v) => match guard(|| crate::sv::from_sv::<Window<L>>(&v)) {
+				Ok(Ok(x)) => rebuilt.push((route, x)),
+				Ok(Err(e)) => r.violate(&format!("C01|Window|deserialize|{route}|rejects-own-form"), &format!("Deserialize rejects what Serialize produced: {e}"), || case(route)),
+				Err(p) => r.violate(&sig("deserialize", &format!("panic:{}", p.class())), &p.msg, || case(route)),
+			},
+			Err(e) => r.violate(&format!("C01|Window|serialize|{route}|error"), &e, || case(route)),
+		}
+	}
 	// serde through Value and through text
 	match serde_json::to_value(w) {
 		Ok(v) => {
